@@ -134,9 +134,14 @@ def tie_H(res, client, runs, hang_is_violation=True, label=None, exe=None, ignor
             replay = {"kind": "failing-history", "client": client, "args": run["args"], "case": cid,
                       "variant": var, "schedule": sched_of(block), "block": block[:20000]}
             if status != "ok":
-                if hang_is_violation:
+                # `budget` = the step budget ran out while threads were still making steps (a livelock of this particular,
+                # possibly unfair, schedule); `deadlock` = every live thread waits and nothing is written any more.
+                # Callers whose property says nothing about progress under unfair schedules pass hang_is_violation="deadlock".
+                if hang_is_violation is True or (hang_is_violation == "deadlock" and status != "budget"):
                     res.violation("%s:%s:hang:%s" % (label, var, status), dict(replay, kind="hang", status=status))
                 res.add("hangs")
+                res.cov.setdefault("hang_status", {})
+                res.cov["hang_status"][status] = res.cov["hang_status"].get(status, 0) + 1
                 continue
             xs = re.findall(r"^X (.*)$", block, flags=re.M)
             if ignore_oracle:       # oracle verdicts that belong to another property
